@@ -19,6 +19,7 @@ pub fn tpl(name: &str) -> String {
         "C" => "{pos}/{len}",
         "MC" => "{msg}{pos}",
         "KM" => "{k}{msg}",
+        "KC" => "{k}{msg}",
         "D" => "{wide_bar} {pos}/{len}",
         "CP" => "{pos} {len} {percent}",
         "P" => "{pos}",
@@ -30,6 +31,9 @@ pub fn style(name: &str) -> ProgressStyle {
     let s = ProgressStyle::with_template(&tpl(name)).unwrap();
     if name == "KM" {
         s.with_key("k", |_: &indicatif::ProgressState, w: &mut dyn std::fmt::Write| { let _ = w.write_str("x\ty"); })
+    } else if name == "KC" {
+        // the same text, written character by character and through format arguments
+        s.with_key("k", |_: &indicatif::ProgressState, w: &mut dyn std::fmt::Write| { let _ = w.write_char('x'); let _ = write!(w, "{}", '\t'); let _ = w.write_char('y'); })
     } else { s }
 }
 
@@ -164,6 +168,8 @@ pub fn exec(world: &mut World, op: &Value) -> String {
         "set_prefix" => pb!().set_prefix(m()),
         "set_style" => pb!().set_style(style(op["tpl"].as_str().unwrap_or("M"))),
         "set_tab_width" => pb!().set_tab_width(n as usize),
+        // take the bar's current style, give it a new template, put it back (keeps keys and tab width of the style object)
+        "restyle" => { let p = pb!(); let name = op["tpl"].as_str().unwrap_or("M"); let st = p.style().template(&tpl(name)).unwrap(); p.set_style(st); }
         "reset" => pb!().reset(),
         "reset_eta" => pb!().reset_eta(),
         "reset_elapsed" => pb!().reset_elapsed(),
